@@ -457,6 +457,17 @@ func c19Paths(u *U, v cty.Value, steps []cty.PathStep, maxLen int) {
 
 type pathSys struct {
 	paths []cty.Path
+	initA []int // paths A holds in the initial state
+	initB []int
+}
+
+// c19IndexAlphabet: index steps under one prefix (they share a hash bucket), with a
+// negative-zero key that is the same key as 0.
+func c19IndexAlphabet() []cty.Path {
+	it := cty.GetAttrPath("items")
+	return []cty.Path{
+		it.IndexInt(0), it.Index(cty.Zero.Negate()), it.IndexInt(1), it.IndexInt(2), it.IndexInt(3), it.IndexString("0"), it.Index(cty.NumberFloatVal(2)),
+	}
 }
 
 func c19PathAlphabet() []cty.Path {
@@ -473,7 +484,7 @@ func c19PathAlphabet() []cty.Path {
 
 var pathAlgebra = []string{"Union", "Intersection", "Subtract", "SymmetricDifference"}
 
-func (s *pathSys) NumOps() int { return 3*len(s.paths) + 2 + len(pathAlgebra) }
+func (s *pathSys) NumOps() int { return 3*len(s.paths) + 2 + 2*len(pathAlgebra) }
 func (s *pathSys) OpName(i int) string {
 	n := len(s.paths)
 	switch {
@@ -488,7 +499,10 @@ func (s *pathSys) OpName(i int) string {
 	case i == 3*n+1:
 		return "swap(A,B)"
 	}
-	return "A=A." + pathAlgebra[i-3*n-2] + "(B)"
+	if k := i - 3*n - 2; k < len(pathAlgebra) {
+		return "A=A." + pathAlgebra[k] + "(B)"
+	}
+	return "B=A." + pathAlgebra[i-3*n-2-len(pathAlgebra)] + "(B)" // the receiver stays alive next to the result
 }
 
 type pathInst struct {
@@ -498,7 +512,16 @@ type pathInst struct {
 }
 
 func (s *pathSys) New() E2Inst {
-	return &pathInst{sys: s, A: cty.NewPathSet(), B: cty.NewPathSet(), mA: map[string]bool{}, mB: map[string]bool{}}
+	in := &pathInst{sys: s, A: cty.NewPathSet(), B: cty.NewPathSet(), mA: map[string]bool{}, mB: map[string]bool{}}
+	for _, i := range s.initA {
+		in.A.Add(s.paths[i].Copy())
+		in.mA[canonPath(s.paths[i])] = true
+	}
+	for _, i := range s.initB {
+		in.B.Add(s.paths[i].Copy())
+		in.mB[canonPath(s.paths[i])] = true
+	}
+	return in
 }
 
 // canonPath: model identity of a path (keys by documented equality).
@@ -512,7 +535,11 @@ func canonPath(p cty.Path) string {
 		case cty.IndexStep:
 			k := st.Key
 			if k.Type() == cty.Number {
-				b.WriteString("[N:" + bf(k).Text('f', -1) + "]")
+				if bf(k).Sign() == 0 {
+					b.WriteString("[N:0]") // -0 and 0 are one key
+				} else {
+					b.WriteString("[N:" + bf(k).Text('f', -1) + "]")
+				}
 			} else {
 				b.WriteString("[S:" + k.AsString() + "]")
 			}
@@ -577,7 +604,8 @@ func (in *pathInst) Apply(op int, check bool, report func(site, shape, detail st
 	default:
 		m := map[string]bool{}
 		var r cty.PathSet
-		switch pathAlgebra[op-3*n-2] {
+		intoB := op-3*n-2 >= len(pathAlgebra)
+		switch pathAlgebra[(op-3*n-2)%len(pathAlgebra)] {
 		case "Union":
 			r = in.A.Union(in.B)
 			for k := range in.mA {
@@ -613,7 +641,12 @@ func (in *pathInst) Apply(op int, check bool, report func(site, shape, detail st
 				}
 			}
 		}
-		in.A, in.mA = r, m
+		if intoB {
+			in.B, in.mB = r, m
+			bTouched = true
+		} else {
+			in.A, in.mA = r, m
+		}
 	}
 	if !check {
 		return true
@@ -791,6 +824,11 @@ func runC19(c *Ctx) {
 	}
 	c.Note("pathset_bfs_depth", fmtInt(depth))
 	exploreE2(c, &pathSys{paths: c19PathAlphabet()}, depth, "pathset.")
+	// index steps of one collection (one hash bucket), from the empty set and from sets that
+	// already hold three and four of them
+	exploreE2(c, &pathSys{paths: c19IndexAlphabet()}, depth-1, "pathset[index].")
+	exploreE2(c, &pathSys{paths: c19IndexAlphabet(), initA: []int{0, 2, 3}, initB: []int{4}}, depth-1, "pathset[index/3].")
+	exploreE2(c, &pathSys{paths: c19IndexAlphabet(), initA: []int{1, 2, 3, 4}, initB: []int{0, 5}}, depth-2, "pathset[index/4].")
 }
 
 func pvmSnapshot(pvm []cty.PathValueMarks) string {
